@@ -1,17 +1,34 @@
 /-
-  Safety of libnstd's Future / ThreadPool (model `Nstd.Future.Model`, both the original and the repaired
-  code, every schedule, any number of threads):
+  Safety of libnstd's Future / ThreadPool (model `Nstd.Future.Model`; both `cfg.repaired` values, every
+  schedule, any number of threads).  No hypothesis besides `Reach cfg s`.
 
     A  exactly-once (safety half) and argument integrity
-         exec_at_most_once, exec_args_are_start_args, exec_by_worker, executor_unique
+         exec_at_most_once, exec_args_are_start_args, exec_by_worker, executor_unique, executor_frame_unique,
+         exec_count_of_executor, completed_exec_once
     B  record lifetime
-         call_record_freed_once, exec_record_alive, client_record_alive, no_fault_partial
-         (`Safety8`: pool_of_nonworker, no_fault_of_workerPool — the "no pool" fault for clients / main thread)
+         call_record_freed_once, exec_record_alive, client_record_alive, holder_record_alive,
+         no_fault_partial        (fault = none ∨ fault = some "no pool")
+         `SafetyFault.no_fault`  (fault = none; uses `Progress6.no_pool_fault` of the progress proof)
+         `Safety8` (namespace `Safe`): pool_of_nonworker, no_fault_of_workerPool  -- own proof of the "no pool"
+            part for client threads and the main thread; `Safety9`: pool_mutex_exclusive
     facts exported to the completion-handshake proof (`Handshake*.lean`)
-         safe_unique, safe_started, safe_notDone, completed_exec_once, everCalls_stable_step, everCalls_isSome_iff
+         defs preArm, preX; safe_unique, safe_started, safe_notDone;
+         everCalls_isSome_iff, everCalls_stable, nextCall_mono, step_facts
 
-  Proof: one token per call record (`Safety1`): Σ_threads weight + tokens in the ring + freeCount ≤ 1 is
-  an inductive invariant (`Safety6.reach_safe`); the ring facts it needs come from `SimRing`.
+  Proof: ONE TOKEN per call record (`Safety1`):
+     Σ_threads weight c + (tokens of c in the ring) + freeCount c ≤ 1          (`SafeInv.tok`)
+     execCount c = Σ_threads #frames pBody c … pDelete c + freeCount c          (`SafeInv.exe`)
+     completed c → 1 ≤ Σ_threads #frames pSig c, pDelete c + freeCount c        (`SafeInv.comp`)
+  are inductive (`Safety6.reach_safe`); the ring facts needed (a popper reads the payload pushed with its
+  ticket; tickets are popped once) come from `SimRing`.  The invariant does not mention the pool's life
+  cycle: when the pool is deleted the ring tokens just disappear, so parts A/B need no liveness of workers.
+
+  Files: Safety1 vocabulary · Safety2 stack discipline (`StackOk`, `LastOnly`) · Safety3 token balance of a
+  step (110 frames, automation) · Safety4 the same for `push`/`pop` micro-steps · Safety5 record table ·
+  Safety6 `SafeInv` · Safety7/8/9 (namespace `Safe`) pool existence for clients/main, pool mutex.
+
+  OPEN: nothing of parts A/B.  Part C (completion handshake) was reassigned to `Handshake*.lean`.
+  Not done here: an own proof of `WorkerPool` (live worker ⇒ pool exists) — superseded by `Progress6`.
 -/
 import Nstd.Future.Safety8
 set_option linter.unusedSimpArgs false
